@@ -20,7 +20,7 @@
 
   Supported grammar (everything else that the model answers is a `ValueError`):
       text      := date | date SEP time            (at least 7 characters)
-      date      := YYYY "-" MM "-" DD | YYYYMMDD   (ISO week dates "YYYY-Www[-d]", "YYYYWww[d]": declined)
+      date      := YYYY "-" MM "-" DD | YYYYMMDD | YYYY "-W" ww ["-" d] | YYYY "W" ww [d]   (week dates: Kskm.TimeWeek)
       SEP       := any single character (also a non-ASCII one)
       time      := hms [tz]                        (tz starts at the first "Z", "+" or "-" of `time`)
       hms       := HH [":" MM [":" SS [("."|","|":") f+ ]]] | HH [MM [SS [ ("."|",")? f+ ]]]
@@ -34,8 +34,9 @@
   A naive result is taken as UTC.  Field ranges as in `datetime.__new__` (year 1…9999, real
   calendar days, 0…23, 0…59, 0…59).
 
-  Declined (`unsupported`): ISO week dates; a non-ASCII character anywhere but at the separator
-  position (the C code works on UTF-8 octets there).
+  Nothing is declined: ISO week dates and texts with a non-ASCII character anywhere but at the usual
+  separator position go through `fromIsoGeneral`, the same transcription on the UTF-8 octets of the text
+  (surrogates are not Lean `Char`s; the harness never sends them to the model).
 
   ## format_datetime
 
@@ -45,6 +46,7 @@
   fields are two digits; microseconds are dropped.
 -/
 import Kskm.Data
+import Kskm.TimeWeek
 namespace Kskm
 
 /-! ### civil ↔ day number (proleptic Gregorian; day 0 = 1970-01-01) -/
@@ -206,13 +208,81 @@ def parseIsoTime (r : List Char) : Option TimeOfDay :=
               let off := z.vals.getD 0 0 * 3600 + z.vals.getD 1 0 * 60 + z.vals.getD 2 0
               some { hour := h, minute := mi, second := s, us := t.us, tzUtc := some (off == 0) }
 
+/-! ### the general path: UTF-8 octets and ISO week dates (`Kskm.TimeWeek`)
+
+  `fromIsoGeneral` transcribes `datetime_fromisoformat` once more, this time on the UTF-8 octets of the
+  text (one `Char` below 256 per octet) and with the week-date branch of `parse_isoformat_date`.
+  `fromIsoChars` below hands over to it at the two places where the character-level transcription does
+  not apply: a non-ASCII character outside the usual separator position, and a `W` after the year. -/
+
+/-- `iso_to_ymd`: the civil date of ISO (year, week, day); `none` for an invalid week or day.  The year
+    of the result may be 0 or 10000 (rejected by the range check of the caller). -/
+def isoToCivil (year : Int) (week day : Nat) : Option Civil :=
+  (isoWeekDayNumber (daysOfCivil { year := year, month := 1, day := 1 }) (isLeap year) week day).map civilOfDays
+
+/-- `parse_isoformat_date(dtstr, len, …)` (`len` = separator location), week dates included; the month/day
+    of an ordinary date are returned unchecked -/
+def parseIsoDateG (s : List Char) (len : Nat) : Option Civil :=
+  match parseDigitsN 4 s 0 with
+  | none => none
+  | some (year, r0) =>
+    let (sep, r1) : Bool × List Char :=
+      match r0 with
+      | '-' :: t => (true, t)
+      | _ => (false, r0)
+    if peek r1 = 'W' then
+      match parseDigitsN 2 (r1.drop 1) 0 with
+      | none => none
+      | some (week, r3) =>
+        if s.length - r3.length < len then
+          if sep && peek r3 ≠ '-' then none
+          else
+            match parseDigitsN 1 (if sep then r3.drop 1 else r3) 0 with
+            | none => none
+            | some (day, _) => isoToCivil year week day
+        else isoToCivil year week 1
+    else
+      match parseDigitsN 2 r1 0 with
+      | none => none
+      | some (month, r2) =>
+        if sep && peek r2 ≠ '-' then none
+        else
+          match parseDigitsN 2 (if sep then r2.drop 1 else r2) 0 with
+          | none => none
+          | some (day, _) => some { year := year, month := month, day := day }
+
+/-- `datetime.fromisoformat(s)` + the UTC test of `parse_datetime`, on the UTF-8 octets of `cs`
+    (`cs.length ≥ 7` has been checked by the caller) -/
+def fromIsoGeneral (cs : List Char) : Res Int :=
+  let s := utf8OfChars cs
+  match findIsoSeparator s with
+  | none => err .value
+  | some sepLoc =>
+    match parseIsoDateG s sepLoc with
+    | none => err .value
+    | some c =>
+      let tod : Option TimeOfDay :=
+        if s.length > sepLoc then
+          let p := s.drop sepLoc
+          parseIsoTime (p.drop (sepWidth (peek p)))
+        else some { hour := 0, minute := 0, second := 0, us := 0, tzUtc := none }
+      match tod with
+      | none => err .value
+      | some t =>
+        if !(decide (1 ≤ c.year) && decide (c.year ≤ 9999) && c.valid && decide (t.hour ≤ 23)
+              && decide (t.minute ≤ 59) && decide (t.second ≤ 59)) then err .value
+        else if t.tzUtc = some false then err .value
+        else
+          pure (daysOfCivil c * usPerDay
+            + ((t.hour * 3600 + t.minute * 60 + t.second : Nat) : Int) * usPerSecond + (t.us : Int))
+
 /-- `datetime.fromisoformat(s)` followed by the UTC test of `parse_datetime`, on characters -/
 def fromIsoChars (cs : List Char) : Res Int :=
   if cs.length < 7 then err .value
   else
     let sepLoc : Nat := if cs.getD 4 '\x00' = '-' then 10 else 8
     -- the C code works on UTF-8 octets: only the separator may be a multi-octet character
-    if (cs.zipIdx.any fun (c, i) => decide (128 ≤ c.toNat) && i != sepLoc) then unsupported
+    if (cs.zipIdx.any fun (c, i) => decide (128 ≤ c.toNat) && i != sepLoc) then fromIsoGeneral cs
     else
       match parseDigitsN 4 cs 0 with
       | none => err .value
@@ -221,7 +291,7 @@ def fromIsoChars (cs : List Char) : Res Int :=
           match r0 with
           | '-' :: t => (true, t)
           | _ => (false, r0)
-        if peek r1 = 'W' then unsupported          -- ISO week date
+        if peek r1 = 'W' then fromIsoGeneral cs    -- ISO week date
         else
           match parseDigitsN 2 r1 0 with
           | none => err .value
